@@ -1,0 +1,7 @@
+//go:build !verif
+
+package protocol
+
+// verifTrace is the no-op stub of the verification trace hook (see
+// verif_on.go, build tag `verif`).  It is empty and inlined away.
+func (p *Protocol) verifTrace(kind uint8, a, b uint64, m Message) {}
